@@ -79,3 +79,54 @@ package writer
 //@   ensures [nonnumeric] implies(len(rec) == 0 || rec[0] == 0x13 || rec[0] == 0x01 || rec[0] == 0x02 || rec[0] == 0x14 || rec[0] == 0x15, result1 == nil && result0 == (op == NotEquals))
 //@   safe
 //@ end
+
+// ---- numeric range index (C03): every value added stays inside [min,max] ----
+
+//@ spec wfRI(ri *structs.Numbers) bool = ri != nil && ite(ri.NumType == RNT_SIGNED_INT, ri.Min_int64 <= ri.Max_int64, ite(ri.NumType == RNT_FLOAT64, ri.Min_float64 <= ri.Max_float64, ri.NumType == RNT_UNSIGNED_INT && ri.Min_uint64 <= ri.Max_uint64 && ri.Max_uint64 <= 9223372036854775807))
+//@ spec riHasInt(ri *structs.Numbers, v int64) bool = ite(ri.NumType == RNT_SIGNED_INT, ri.Min_int64 <= v && v <= ri.Max_int64, ite(ri.NumType == RNT_FLOAT64, ri.Min_float64 <= float64(v) && float64(v) <= ri.Max_float64, v >= 0 && ri.Min_uint64 <= uint64(v) && uint64(v) <= ri.Max_uint64))
+//@ spec riHasUint(ri *structs.Numbers, v uint64) bool = ite(ri.NumType == RNT_SIGNED_INT, v <= 9223372036854775807 && ri.Min_int64 <= int64(v) && int64(v) <= ri.Max_int64, ite(ri.NumType == RNT_FLOAT64, ri.Min_float64 <= float64(v) && float64(v) <= ri.Max_float64, ri.Min_uint64 <= v && v <= ri.Max_uint64))
+//@ spec riHasFloat(ri *structs.Numbers, v float64) bool = ri.NumType == RNT_FLOAT64 && ri.Min_float64 <= v && v <= ri.Max_float64
+// the value range of `o` (before) is contained in the range of `n` (after), across type promotions
+//@ spec riContains(n *structs.Numbers, o *structs.Numbers) bool = ite(o.NumType == RNT_SIGNED_INT, riHasInt(n, o.Min_int64) && riHasInt(n, o.Max_int64), ite(o.NumType == RNT_FLOAT64, riHasFloat(n, o.Min_float64) && riHasFloat(n, o.Max_float64), riHasUint(n, o.Min_uint64) && riHasUint(n, o.Max_uint64)))
+
+//@ func addIntToRangeIndex
+//@   props C03
+//@   requires rangeIndexPtr != nil
+//@   requires implies(haskey(rangeIndexPtr, key), wfRI(rangeIndexPtr[key]))
+//@   ensures [present] rangeIndexPtr[key] != nil
+//@   ensures [wf] wfRI(rangeIndexPtr[key])
+//@   ensures [has-value] riHasInt(rangeIndexPtr[key], incomingVal)
+//@   ensures [monotone-signed] implies(old(haskey(rangeIndexPtr, key)) && old(rangeIndexPtr[key].NumType) == RNT_SIGNED_INT, rangeIndexPtr[key].NumType == RNT_SIGNED_INT && rangeIndexPtr[key].Min_int64 <= old(rangeIndexPtr[key].Min_int64) && rangeIndexPtr[key].Max_int64 >= old(rangeIndexPtr[key].Max_int64))
+//@   ensures [monotone-unsigned] implies(old(haskey(rangeIndexPtr, key)) && old(rangeIndexPtr[key].NumType) == RNT_UNSIGNED_INT, rangeIndexPtr[key].NumType == RNT_SIGNED_INT && rangeIndexPtr[key].Min_int64 <= int64(old(rangeIndexPtr[key].Min_uint64)) && rangeIndexPtr[key].Max_int64 >= int64(old(rangeIndexPtr[key].Max_uint64)))
+//@   ensures [monotone-float] implies(old(haskey(rangeIndexPtr, key)) && old(rangeIndexPtr[key].NumType) == RNT_FLOAT64, rangeIndexPtr[key].NumType == RNT_FLOAT64 && rangeIndexPtr[key].Min_float64 <= old(rangeIndexPtr[key].Min_float64) && rangeIndexPtr[key].Max_float64 >= old(rangeIndexPtr[key].Max_float64))
+//@   safe
+//@ end
+
+//@ func addUintToRangeIndex
+//@   props C03
+//@   requires rangeIndexPtr != nil && incomingVal <= 9223372036854775807
+//@   requires implies(haskey(rangeIndexPtr, key), wfRI(rangeIndexPtr[key]))
+//@   ensures [present] rangeIndexPtr[key] != nil
+//@   ensures [wf] wfRI(rangeIndexPtr[key])
+//@   ensures [has-value] riHasUint(rangeIndexPtr[key], incomingVal)
+//@   ensures [monotone-signed] implies(old(haskey(rangeIndexPtr, key)) && old(rangeIndexPtr[key].NumType) == RNT_SIGNED_INT, rangeIndexPtr[key].NumType == RNT_SIGNED_INT && rangeIndexPtr[key].Min_int64 <= old(rangeIndexPtr[key].Min_int64) && rangeIndexPtr[key].Max_int64 >= old(rangeIndexPtr[key].Max_int64))
+//@   ensures [monotone-unsigned] implies(old(haskey(rangeIndexPtr, key)) && old(rangeIndexPtr[key].NumType) == RNT_UNSIGNED_INT, rangeIndexPtr[key].NumType == RNT_UNSIGNED_INT && rangeIndexPtr[key].Min_uint64 <= old(rangeIndexPtr[key].Min_uint64) && rangeIndexPtr[key].Max_uint64 >= old(rangeIndexPtr[key].Max_uint64))
+//@   ensures [monotone-float] implies(old(haskey(rangeIndexPtr, key)) && old(rangeIndexPtr[key].NumType) == RNT_FLOAT64, rangeIndexPtr[key].NumType == RNT_FLOAT64 && rangeIndexPtr[key].Min_float64 <= old(rangeIndexPtr[key].Min_float64) && rangeIndexPtr[key].Max_float64 >= old(rangeIndexPtr[key].Max_float64))
+//@   safe
+//@ end
+
+//@ func addFloatToRangeIndex
+//@   props C03
+//@   requires rangeIndexPtr != nil && !isNaN(incomingVal)
+//@   requires implies(haskey(rangeIndexPtr, key), wfRI(rangeIndexPtr[key]))
+//@   ensures [present] rangeIndexPtr[key] != nil && rangeIndexPtr[key].NumType == RNT_FLOAT64
+//@   ensures [wf-float] implies(!old(haskey(rangeIndexPtr, key)) || old(rangeIndexPtr[key].NumType) == RNT_FLOAT64, wfRI(rangeIndexPtr[key]))
+//@   ensures [has-value-float] implies(!old(haskey(rangeIndexPtr, key)) || old(rangeIndexPtr[key].NumType) == RNT_FLOAT64, riHasFloat(rangeIndexPtr[key], incomingVal))
+//@   ensures [monotone-float] implies(old(haskey(rangeIndexPtr, key)) && old(rangeIndexPtr[key].NumType) == RNT_FLOAT64, rangeIndexPtr[key].Min_float64 <= old(rangeIndexPtr[key].Min_float64) && rangeIndexPtr[key].Max_float64 >= old(rangeIndexPtr[key].Max_float64))
+// promotions of an integer index to float: need monotonicity of int->float64 rounding, which only cvc5 decides and slowly
+//@   ensures_thorough [wf-promoted] wfRI(rangeIndexPtr[key])
+//@   ensures_thorough [has-value-promoted] riHasFloat(rangeIndexPtr[key], incomingVal)
+//@   ensures_thorough [monotone-signed] implies(old(haskey(rangeIndexPtr, key)) && old(rangeIndexPtr[key].NumType) == RNT_SIGNED_INT, rangeIndexPtr[key].Min_float64 <= float64(old(rangeIndexPtr[key].Min_int64)) && rangeIndexPtr[key].Max_float64 >= float64(old(rangeIndexPtr[key].Max_int64)))
+//@   ensures_thorough [monotone-unsigned] implies(old(haskey(rangeIndexPtr, key)) && old(rangeIndexPtr[key].NumType) == RNT_UNSIGNED_INT, rangeIndexPtr[key].Min_float64 <= float64(old(rangeIndexPtr[key].Min_uint64)) && rangeIndexPtr[key].Max_float64 >= float64(old(rangeIndexPtr[key].Max_uint64)))
+//@   safe
+//@ end
